@@ -19,7 +19,8 @@ RULE = ("a family of dataclasses is generated as source text (depth <= 4; frozen
         "obj) is judged by the model only.  The real simple_parsing.replace is called; obj is deep-copied before and compared "
         "after.  Non-trivial = a non-empty or malformed change set; distinct by full case.  replace_subgroups stream: families "
         "of defaulted classes with subgroups() (class, functools.partial and frozen-instance tables), Optional / Union / nested "
-        "members and now and then an init=False field; ABSTRACT selections (path -> key | type | instance | None), a member "
+        "members, members annotated with a CONTAINER of dataclasses (List[A], Tuple[A, ...], Optional[List[A]]) and now and then "
+        "an init=False field; ABSTRACT selections (path -> key | type | instance | None), a member "
         "before the members below it, also child-only selections, unknown names, init=False / plain fields and unknown keys; "
         "rendered flat (dotted), nested (with __key__) or mixed; the static facts the model needs (per field: annotation "
         "holds a dataclass / is Optional, subgroup table, default_factory(); per class: cls()) are observed with the real helpers.")
@@ -324,7 +325,7 @@ def gen_sub_schema(rng):
         for _ in range(nf):
             fn = rng.choice([n for n in ["sub", "ab", "fz", "opt", "un", "nest", "k", "z", "model", "d_2"] if n not in used])
             used.add(fn)
-            kinds = ["subg", "subg", "subgf", "opt", "union", "int"]
+            kinds = ["subg", "subg", "subgf", "opt", "union", "int", "listdc"]
             if i > 0:
                 kinds += ["nest", "nest", "nest"]
             if rng.random() < 0.07:
@@ -350,6 +351,8 @@ def gen_sub_schema(rng):
                 fields.append([fn, kind, f"M{rng.randrange(i)}"])
             elif kind == "int":
                 fields.append([fn, kind, rng.choice([3, 5])])
+            elif kind == "listdc":   # a CONTAINER of dataclasses: replace_subgroups accepts a selection for it as well
+                fields.append([fn, kind, {"cls": rng.choice(ls), "form": rng.choice(["list", "tuple", "optlist"])}])
             else:
                 fields.append([fn, kind, 3])
         conts[name] = fields
@@ -357,7 +360,7 @@ def gen_sub_schema(rng):
 
 
 def sub_source(sc):
-    out = ["import dataclasses, functools", "from dataclasses import dataclass, field", "from typing import Optional, Union",
+    out = ["import dataclasses, functools", "from dataclasses import dataclass, field", "from typing import List, Optional, Tuple, Union",
            "from simple_parsing import subgroups", ""]
     for name, fs in sc["leaves"].items():
         out += ["@dataclass", f"class {name}:"] + [f"    {fn}: {type(v).__name__} = {v!r}" for fn, v in fs] + [""]
@@ -384,6 +387,10 @@ def sub_source(sc):
                 out.append(f"    {fn}: {extra} = field(default_factory={extra})")
             elif kind == "int":
                 out.append(f"    {fn}: int = {extra}")
+            elif kind == "listdc":
+                out.append({"list": f"    {fn}: List[{extra['cls']}] = field(default_factory=list)",
+                            "tuple": f"    {fn}: Tuple[{extra['cls']}, ...] = ()",
+                            "optlist": f"    {fn}: Optional[List[{extra['cls']}]] = None"}[extra["form"]])
             else:
                 out.append(f"    {fn}: int = field(default={extra}, init=False)")
         out.append("")
@@ -410,6 +417,8 @@ def sub_anns(sc):
                 a = ["union", ["dc", "none"]]
             elif kind == "union":
                 a = ["union", ["dc", "dc"]]
+            elif kind == "listdc":
+                a = ["union", ["listdc", "none"]] if extra["form"] == "optlist" else "listdc"
             else:
                 a = "other"
             out.append([name, fn, a])
@@ -446,6 +455,8 @@ def sub_instance(rng, sc, cls, p_default=0.5):
             out.append([fn, True, leaf(extra if rng.random() < p_default else extra + 10), None])
         elif kind == "noninit":
             out.append([fn, False, leaf(extra), leaf(extra)])
+        elif kind == "listdc":
+            out.append([fn, True, leaf({"list": [], "tuple": (), "optlist": rng.choice([None, []])}[extra["form"]]), None])
         elif kind == "opt":
             out.append([fn, True, leaf(None) if rng.random() < 0.4 else sub_instance(rng, sc, extra, p_default), None])
         else:
@@ -470,6 +481,13 @@ def sub_pick(rng, sc, kind, extra, p_bad):
             cls = rng.choice(members)
             return {"c": "inst", "node": sub_instance(rng, sc, cls, 0.3)}, cls
         return {"c": "none"}, None
+    if kind == "listdc":
+        if r < 0.3:
+            return {"c": "none"}, None
+        cls = extra["cls"] if rng.random() < 0.8 else rng.choice(sorted(sc["leaves"]))
+        if r < 0.7:
+            return {"c": "type", "cls": cls}, None
+        return {"c": "inst", "node": sub_instance(rng, sc, cls, 0.3)}, None
     if kind == "subgf":
         if r < 0.85:
             return {"c": "key", "k": rng.choice(["odd", "even"])}, "Z0"
@@ -1012,6 +1030,25 @@ def _has_noninit(tables_or_node, node):
     return any(not init or _has_noninit(None, v) for _fn, init, v, _d in node["fields"]) if node["k"] == "dc" else False
 
 
+def _ann_holds_dc(a):
+    return any(_ann_holds_dc(x) for x in a[1]) if isinstance(a, list) else a in ("dc", "listdc")
+
+
+def _ann_optional(a):
+    return isinstance(a, list) and "none" in a[1]
+
+
+def spec_tables(tables, anns):
+    """the spec reads has-a-dataclass / is-Optional off the annotation that was written, not off the helpers' answers."""
+    by = {(c, f): a for c, f, a in (anns or [])}
+    meta = []
+    for c, n, has_dc, optional, table, factory in tables["meta"]:
+        if (c, n) in by:
+            has_dc, optional = _ann_holds_dc(by[(c, n)]), _ann_optional(by[(c, n)])
+        meta.append([c, n, has_dc, optional, table, factory])
+    return {"meta": meta, "classes": tables["classes"]}
+
+
 def _sub_violation(case, obs):
     if not obs["gen_ok"]:
         return "harness-bug", "the built instance does not canonicalise to the generated tree"
@@ -1022,11 +1059,12 @@ def _sub_violation(case, obs):
     sels = case["abs"]
     selected = [p for p, _c in sels]
     childonly = [p for p in selected if len(p) > 1 and p[:-1] not in selected]
-    exp = expected_sub(obs["tables"], sels, case["obj"])
+    stables = spec_tables(obs["tables"], case.get("anns"))
+    exp = expected_sub(stables, sels, case["obj"])
     o = obs["obs"]
     if exp is None:
         if o[0] != "raise":
-            return "sub-not-raised:" + _why_invalid(obs["tables"], sels, case["obj"]), \
+            return "sub-not-raised:" + _why_invalid(stables, sels, case["obj"]), \
                 f"a selection that names no member was not rejected ({o[0]})"
         return None
     if o[0] != "ok":
@@ -1136,7 +1174,7 @@ def features(case, obs):
                 "sub_choices": "+".join(sorted({c["c"] for _p, c in sels})) or "none",
                 "sub_child_only": any(len(p) > 1 and p[:-1] not in selected for p in selected),
                 "outcome": "sub:" + obs["obs"][0] + (":" + obs["obs"][1] if obs["obs"][0] == "raise" else ""),
-                "sub_valid": expected_sub(obs["tables"], sels, case["obj"]) is not None,
+                "sub_valid": expected_sub(spec_tables(obs["tables"], case.get("anns")), sels, case["obj"]) is not None,
                 "selections_mutated": not obs["changes_unchanged"]}
     o = case["obj"]
     A = assigns(dnode(case["abs"]), o) if case["abs"] is not None else []
@@ -1221,7 +1259,7 @@ def ctables(t):
 def cann(a):
     if isinstance(a, list):
         return f"(AUnion {clist([cann(x) for x in a[1]])})"
-    return {"dc": "ADc", "other": "AOther", "none": "ANoneType"}[a]
+    return {"dc": "ADc", "other": "AOther", "none": "ANoneType", "listdc": "AListDc"}[a]
 
 
 def to_coq_sub(case, obs):
